@@ -496,6 +496,18 @@ func dependsOn(v ssa.Value, pred func(ssa.Value) bool) bool {
 		if pred(x) {
 			return true
 		}
+		// a field of a struct held in a local variable depends on what was stored into THAT field
+		// (and on whole-struct assignments), not on its sibling fields
+		if al, idx, ok := localFieldLoad(x); ok {
+			if srcs := localStructFieldSources(al, idx, 0); len(srcs) > 0 {
+				for _, sv := range srcs {
+					if walk(sv, depth+1) {
+						return true
+					}
+				}
+				return false
+			}
+		}
 		switch t := x.(type) {
 		case *ssa.FreeVar:
 			if b := freeVarBinding(t); b != nil {
